@@ -122,6 +122,18 @@ CHECKS = {
             "bounded by the supported subset of DESIGN.md 2.3; sub-domains the properties leave open are counted, "
             "not asserted.",
             "DESIGN.md 3/C01"),
+    "C05": ("exploration",
+            "Hypothesis-generated container trees + enumeration of all assignments (interval representatives) of the "
+            "fields that restriction criteria read, against the reference container walk (model-based oracle)",
+            "Generated inheritance trees with nested and reused containers, abstract flags, overlapping and uncovered "
+            "criteria are decoded through parse_ccsds_packet and packet_generator (with and without unrecognised "
+            "reporting) for every assignment of the discriminating fields (every value of narrow fields, one "
+            "representative per literal interval of wide ones) and for synthesised packets; key order, values, header / "
+            "user-data views, unrecognised outcomes and partial data are compared with the reference walk. Complete "
+            "over the discriminating assignments of each generated tree (up to the stride of the quick tier), sampled "
+            "over trees.",
+            "Trusts vf/xref.py; two-parameter conditions are covered by sampling, not by the interval argument.",
+            "DESIGN.md 3/C05"),
 }
 
 PENDING_REASON = "check not built yet in this round (planned, see DESIGN.md section 3); nothing is claimed for it"
